@@ -436,3 +436,184 @@ pub fn nonconv_alphabet(p: &Program) -> Vec<Op> {
     }
     a
 }
+
+// ------------------------------------------------------------------------------------------------
+// C05: lru programs
+
+pub fn lru_set() -> Vec<Program> {
+    let mut v = Vec::new();
+    v.push(Program {
+        name: "lru-a".into(),
+        cells: vec![(0, Dur::Low), (0, Dur::Low)],
+        nodes: vec![
+            NodeDef::new(Kind::Lru, Ex::add(cell(0), k(1))),
+            NodeDef::new(Kind::Lru, Ex::add(cell(0), k(2))),
+            NodeDef::new(Kind::Lru, Ex::add(cell(1), k(3))),
+            NodeDef::new(Kind::Lru, Ex::add(Ex::Ext(0), k(4))),
+            NodeDef::new(Kind::Ev, Ex::add(call(0), call(1))),
+        ],
+        ext: vec![0],
+        root0: None,
+    });
+    v.push(Program {
+        name: "lru-b".into(),
+        cells: vec![(0, Dur::Low), (0, Dur::High)],
+        nodes: vec![
+            NodeDef::new(Kind::Lru, Ex::add(cell(0), k(1))),
+            NodeDef::new(Kind::Lru, k(2)).dur(Dur::High),
+            NodeDef::new(Kind::Lru, Ex::add(cell(1), k(3))).dur(Dur::High),
+            NodeDef::new(Kind::Lru, Ex::and(cell(0), k(0))),
+            NodeDef::new(Kind::Ev, Ex::add(call(2), call(3))),
+        ],
+        ext: vec![0],
+        root0: None,
+    });
+    v
+}
+
+pub fn lru_alphabet(p: &Program) -> Vec<Op> {
+    let mut a = Vec::new();
+    for n in 0..p.nodes.len() as u8 {
+        a.push(Op::Q(n));
+    }
+    a.push(Op::Set(0, 1));
+    a.push(Op::Set(0, 0));
+    a.push(Op::Syn(Dur::Low));
+    a.push(Op::LruTrig);
+    for c in [0u8, 1, 2, 3] {
+        a.push(Op::LruCap(c));
+    }
+    a
+}
+
+// ------------------------------------------------------------------------------------------------
+// C06 / C07: tracked-struct programs
+
+fn ent(cond: Ex, ident: Ex, f: Ex, g: Ex, variant: u8) -> MkEnt {
+    MkEnt { cond, ident, f, g, variant, post: vec![] }
+}
+
+pub fn struct_set() -> Vec<Program> {
+    let mut v = Vec::new();
+    v.push(Program {
+        name: "mk-a".into(),
+        cells: vec![(0, Dur::Low), (1, Dur::Low)],
+        nodes: vec![
+            NodeDef::new(
+                Kind::Mk,
+                Ex::Mk(vec![
+                    ent(k(1), cell(0), cell(1), k(5), 0),
+                    ent(cell(1), k(1), k(2), cell(0), 0),
+                    ent(k(1), cell(0), k(7), k(8), 0),
+                ]),
+            ),
+            NodeDef::new(Kind::Ev, Ex::OnTs(0, 0, 0)),
+            NodeDef::new(Kind::Ev, Ex::add(Ex::Fld(0, 2, 2), Ex::OnTs(0, 1, 1))),
+            NodeDef::new(Kind::Mk, Ex::Mk(vec![ent(k(1), cell(0), k(1), k(1), 0)])),
+        ],
+        ext: vec![0],
+        root0: None,
+    });
+    v.push(Program {
+        name: "mk-b-colliding-hash".into(),
+        cells: vec![(0, Dur::Low), (1, Dur::Low)],
+        nodes: vec![
+            NodeDef::new(
+                Kind::Mk,
+                Ex::Mk(vec![
+                    ent(cell(1), k(3), k(1), k(1), 1),
+                    ent(k(1), cell(0), cell(1), k(2), 1),
+                    ent(k(1), k(3), cell(0), k(3), 1),
+                ]),
+            ),
+            NodeDef::new(Kind::Ev, Ex::OnTs(0, 1, 0)),
+            NodeDef::new(Kind::Ev, Ex::add(Ex::Fld(0, 0, 0), Ex::Len(0))),
+            NodeDef::new(Kind::Mk, Ex::Mk(vec![ent(k(1), cell(0), k(1), k(1), 1), ent(cell(0), k(3), k(1), k(1), 0)])),
+        ],
+        ext: vec![0],
+        root0: None,
+    });
+    v
+}
+
+pub fn struct_alphabet(p: &Program) -> Vec<Op> {
+    let mut a = vec![Op::Set(0, 0), Op::Set(0, 1), Op::Set(0, 2), Op::Set(1, 0), Op::Set(1, 1)];
+    for n in 0..p.nodes.len() as u8 {
+        a.push(Op::Q(n));
+    }
+    a.push(Op::QFld(0, 0, 1));
+    a.push(Op::QOnTs(0, 1, 0));
+    a
+}
+
+/// C07: conditional creation (slot churn) + functions keyed by structs and by tuples
+pub fn churn_struct_set() -> Vec<Program> {
+    vec![Program {
+        name: "churn-structs".into(),
+        cells: vec![(1, Dur::Low), (0, Dur::Low)],
+        nodes: vec![
+            NodeDef::new(
+                Kind::Mk,
+                Ex::Mk(vec![ent(cell(0), k(1), cell(1), k(9), 0), ent(cell(1), k(2), cell(0), k(4), 0), ent(Ex::and(cell(0), cell(1)), k(1), k(3), cell(1), 1)]),
+            ),
+            NodeDef::new(Kind::Ev, Ex::OnTs(0, 0, 0)),
+            NodeDef::new(Kind::Ev, Ex::add(Ex::Fld(0, 0, 1), Ex::OnTs(0, 1, 1))),
+            NodeDef::new(Kind::Ev, Ex::add(Ex::Call2(1, 1), Ex::Call2(2, 1))),
+        ],
+        ext: vec![0],
+        root0: None,
+    }]
+}
+
+pub fn churn_struct_alphabet(p: &Program) -> Vec<Op> {
+    let mut a = vec![Op::Set(0, 0), Op::Set(0, 1), Op::Set(1, 0), Op::Set(1, 1), Op::Set(1, 2)];
+    for n in 0..p.nodes.len() as u8 {
+        a.push(Op::Q(n));
+    }
+    a.push(Op::QFld(0, 1, 1));
+    a.push(Op::QOnTs(0, 0, 0));
+    a.push(Op::Q2(1, 1));
+    a
+}
+
+// ------------------------------------------------------------------------------------------------
+// C07 / C08 / C09: interning programs
+
+/// LOW function interning cell 0, LOW function interning cell 1, HIGH function interning cell 2,
+/// a dependent of the first two.
+pub fn intern_prog(ty: u8) -> Program {
+    Program {
+        name: format!("intern-ty{ty}"),
+        cells: vec![(0, Dur::Low), (1, Dur::Low), (2, Dur::High)],
+        nodes: vec![
+            NodeDef::new(Kind::Ev, Ex::IntFn(ty, cell(0).b())),
+            NodeDef::new(Kind::Ev, Ex::Int(ty, cell(1).b())),
+            NodeDef::new(Kind::Ev, Ex::IntFn(ty, cell(2).b())).dur(Dur::High),
+            NodeDef::new(Kind::Ev, Ex::add(call(0), call(1))),
+        ],
+        ext: vec![0],
+        root0: None,
+    }
+}
+
+pub fn intern_alphabet_full(p: &Program) -> Vec<Op> {
+    let ty: u8 = p.name.trim_start_matches("intern-ty").parse().unwrap_or(1);
+    vec![
+        Op::Set(0, 0),
+        Op::Set(0, 1),
+        Op::Set(0, 2),
+        Op::Set(1, 1),
+        Op::Set(2, 1),
+        Op::Syn(Dur::Low),
+        Op::Q(0),
+        Op::Q(1),
+        Op::Q(2),
+        Op::Q(3),
+        Op::QInt(ty, 1),
+    ]
+}
+
+/// reduced alphabet for the deep runs needed by revisions = 3
+pub fn intern_alphabet_small(_p: &Program) -> Vec<Op> {
+    vec![Op::Set(0, 0), Op::Set(0, 1), Op::Set(0, 2), Op::Syn(Dur::Low), Op::Q(0), Op::Q(3), Op::Q(2)]
+}
